@@ -9,8 +9,8 @@ ID = "C12"
 RUN_MODULE = "Spec.TTLMap Model.Tags Run.C12"
 EXPLAIN = "explain"
 KEYS = ["a:1", "a:2", "b:1", "b:2", "c"]
-# registry: tag "ta" registered for key template "a:{x}"; templated tag "g:{x}" attached by a decorator to "b:{x}"; "u" is never registered
-REG = [("plain", "ta", "a:"), ("templ", "g:", "b:")]
+# registry: tag "ta" registered for key template "a:{x}" and, second, for the key "c"; templated tag "g:{x}" attached by a decorator to "b:{x}"; "u" is never registered
+REG = [("plain", "ta", "a:"), ("templ", "g:", "b:"), ("plain", "ta", "c")]      # "ta" is registered for two key templates
 RULE = ("histories (2-14 events) of tagged / untagged set and incr (direct cache.set(..., tags=) and through a decorated function whose tags= "
         "registers a templated tag), delete, delete_match, delete_tags over 5 keys, tags {ta (registered), g:<x> (templated, registered by "
         "decorator), u (never registered)}, TTL in {none, 0.25 s, 100 s}, advances 0-0.5 s; every key probed before and after each event; plus "
@@ -59,11 +59,13 @@ def gen_cases(rng, tier):
         elif rm == "delp": ev.append([rng.choice([0, 2]), ["delp", k[:2] if ":" in k else k]])
         elif rm == "expire": ev.append([8, ["set", other, 5, 0, [], "set"]])
         elif rm == "dtags_other": ev.append([0, ["dtags", rng.choice([x for x in ["ta", "u", "g:1", "g:2"] if x != t])]])
-        rc = rng.choice(["untagged", "same", "incr_tagged", "incr_untagged", "none"])
+        rc = rng.choice(["untagged", "same", "incr_tagged", "incr_untagged", "none", "extend", "extend"])
         if rc == "untagged": ev.append([0, ["set", k, 5, rng.choice([0, 1600]), [], "set"]])
         elif rc == "same": ev.append([0, ["set", k, 5, rng.choice([0, 1600]), [t], "set"]])
         elif rc == "incr_tagged": ev.append([0, ["incr", k, 0, [t]]])
         elif rc == "incr_untagged": ev.append([0, ["incr", k, 0, []]])
+        elif rc == "extend":        # the same key written again under the same tag with a longer life, then time passes beyond the first deadline
+            ev = [[0, ["set", k, 1, 4, [t], "set"]], [2, ["set", k, 5, 1600, [t], "set"]], [6, ["set", other, 5, 0, [], "set"]]]
         ev.append([rng.choice([0, 2]), ["dtags", t]])
         cases.append({"keys": KEYS, "events": ev})
     for nmem in ([101, 150] if tier == "quick" else [100, 101, 150, 199, 200, 201, 250]):
@@ -82,6 +84,7 @@ def run_impl(case):
         cache.setup("mem://?check_interval=0&size=100000")
         await cache.init()
         cache.register_tag("ta", "a:{x}")
+        cache.register_tag("ta", "c")
 
         @cache(ttl=lambda x, value=None, life=None, result=None: life, key="b:{x}", tags=["g:{x}"])
         async def fb(x, value=None, life=None):
